@@ -57,6 +57,10 @@ func VerifyFunction(p *Program, fn *ssa.Function, full bool) (res *FuncResult) {
 		res.Obls = ex.obls
 		res.Assumptions = ex.assumedClauses
 	}()
+	if fc != nil && fc.Trusted && !fc.IsStub {
+		ex.note("%s: contract is trusted (%s); body not verified", name, fc.TrustedReason)
+		return res
+	}
 	ex.run()
 	return res
 }
@@ -208,6 +212,12 @@ func (ex *Exec) checkLockBalance(ctx *EvalCtx, ret *State) {
 	}
 	for _, l := range ex.rlockTerms {
 		ex.oblige("rlockbalance@return", ex.lockName(l), ex.fn.Pos(), []string{"C14"}, ret, ts.Eq(ts.Select(rheld, l), ts.Select(expR, l)))
+	}
+	if ex.heldHavocked {
+		// a contract redefined the whole held map (LockPile): all locks
+		l := ts.BoundVar("l", SInt)
+		ex.oblige("lockbalance@return", "all-locks", ex.fn.Pos(), []string{"C14"}, ret,
+			ts.Forall([]*Term{l}, ts.And(ts.Eq(ts.Select(held, l), ts.Select(expH, l)), ts.Eq(ts.Select(rheld, l), ts.Select(expR, l)))))
 	}
 }
 
